@@ -1,11 +1,13 @@
 import Mc.Drv.Merge
 import Mc.Drv.Apply
+import Mc.Drv.SyncHandle
 open Mc Mc.Drv
 
 def dispatch (c : J) : Res :=
   match c.getStr "kind" with
   | "merge" => handleMerge c
   | "apply" => handleApply c
+  | "sync" => handleSync c
   | k => { agree := false, where_ := s!"unknown kind {k}" }
 
 partial def loop (h : IO.FS.Stream) (out : IO.FS.Stream) : IO Unit := do
